@@ -100,70 +100,70 @@ octets_body!(octets_iri_fragment, iri::Fragment, mk_iri_fragment);
 octets_body!(octets_iri_userinfo, iri::UserInfo, mk_iri_userinfo);
 octets_body!(octets_iri_host, iri::Host, mk_iri_host);
 
-// @h prop=C19 tier=quick kind=check bound="uri::Segment <= 8 bytes" encodes="SegmentImpl::as_pct_str;pct_str::PctStr::bytes (Bytes::next)"
+// @h prop=C19 tier=quick kind=check mem=4 bound="uri::Segment <= 8 bytes" encodes="SegmentImpl::as_pct_str;pct_str::PctStr::bytes (Bytes::next)"
 #[cfg_attr(kani, kani::proof)]
 #[cfg_attr(kani, kani::unwind(10))]
 pub fn c19_octets_uri_segment_n8() {
     octets_uri_segment::<8>()
 }
 
-// @h prop=C19 tier=thorough kind=check bound="uri::Query <= 8 bytes" encodes="uri::Query::as_pct_str;PctStr::bytes"
+// @h prop=C19 tier=quick kind=check mem=4 bound="uri::Query <= 8 bytes" encodes="uri::Query::as_pct_str;PctStr::bytes"
 #[cfg_attr(kani, kani::proof)]
 #[cfg_attr(kani, kani::unwind(10))]
 pub fn c19_octets_uri_query_n8() {
     octets_uri_query::<8>()
 }
 
-// @h prop=C19 tier=thorough kind=check bound="uri::Fragment <= 8 bytes" encodes="uri::Fragment::as_pct_str;PctStr::bytes"
+// @h prop=C19 tier=quick kind=check mem=4 bound="uri::Fragment <= 8 bytes" encodes="uri::Fragment::as_pct_str;PctStr::bytes"
 #[cfg_attr(kani, kani::proof)]
 #[cfg_attr(kani, kani::unwind(10))]
 pub fn c19_octets_uri_fragment_n8() {
     octets_uri_fragment::<8>()
 }
 
-// @h prop=C19 tier=thorough kind=check bound="uri::UserInfo <= 8 bytes" encodes="uri::UserInfo::as_pct_str;PctStr::bytes"
+// @h prop=C19 tier=quick kind=check mem=4 bound="uri::UserInfo <= 8 bytes" encodes="uri::UserInfo::as_pct_str;PctStr::bytes"
 #[cfg_attr(kani, kani::proof)]
 #[cfg_attr(kani, kani::unwind(10))]
 pub fn c19_octets_uri_userinfo_n8() {
     octets_uri_userinfo::<8>()
 }
 
-// @h prop=C19 tier=quick kind=check bound="uri::Host <= 8 bytes (incl. IP literals)" encodes="uri::Host::as_pct_str;PctStr::bytes"
+// @h prop=C19 tier=quick kind=check mem=4 bound="uri::Host <= 8 bytes (incl. IP literals)" encodes="uri::Host::as_pct_str;PctStr::bytes"
 #[cfg_attr(kani, kani::proof)]
 #[cfg_attr(kani, kani::unwind(10))]
 pub fn c19_octets_uri_host_n8() {
     octets_uri_host::<8>()
 }
 
-// @h prop=C19 tier=quick kind=check bound="iri::Segment <= 7 bytes (UTF-8 literal text mixed with escapes)" encodes="iri::Segment::as_pct_str;PctStr::bytes"
+// @h prop=C19 tier=quick kind=check mem=4 bound="iri::Segment <= 7 bytes (UTF-8 literal text mixed with escapes)" encodes="iri::Segment::as_pct_str;PctStr::bytes"
 #[cfg_attr(kani, kani::proof)]
 #[cfg_attr(kani, kani::unwind(9))]
 pub fn c19_octets_iri_segment_n7() {
     octets_iri_segment::<7>()
 }
 
-// @h prop=C19 tier=thorough kind=check bound="iri::Query <= 7 bytes" encodes="iri::Query::as_pct_str;PctStr::bytes"
+// @h prop=C19 tier=quick kind=check mem=4 bound="iri::Query <= 7 bytes" encodes="iri::Query::as_pct_str;PctStr::bytes"
 #[cfg_attr(kani, kani::proof)]
 #[cfg_attr(kani, kani::unwind(9))]
 pub fn c19_octets_iri_query_n7() {
     octets_iri_query::<7>()
 }
 
-// @h prop=C19 tier=thorough kind=check bound="iri::Fragment <= 7 bytes" encodes="iri::Fragment::as_pct_str;PctStr::bytes"
+// @h prop=C19 tier=quick kind=check mem=4 bound="iri::Fragment <= 7 bytes" encodes="iri::Fragment::as_pct_str;PctStr::bytes"
 #[cfg_attr(kani, kani::proof)]
 #[cfg_attr(kani, kani::unwind(9))]
 pub fn c19_octets_iri_fragment_n7() {
     octets_iri_fragment::<7>()
 }
 
-// @h prop=C19 tier=thorough kind=check bound="iri::UserInfo <= 7 bytes" encodes="iri::UserInfo::as_pct_str;PctStr::bytes"
+// @h prop=C19 tier=quick kind=check mem=4 bound="iri::UserInfo <= 7 bytes" encodes="iri::UserInfo::as_pct_str;PctStr::bytes"
 #[cfg_attr(kani, kani::proof)]
 #[cfg_attr(kani, kani::unwind(9))]
 pub fn c19_octets_iri_userinfo_n7() {
     octets_iri_userinfo::<7>()
 }
 
-// @h prop=C19 tier=thorough kind=check bound="iri::Host <= 7 bytes" encodes="iri::Host::as_pct_str;PctStr::bytes"
+// @h prop=C19 tier=quick kind=check mem=4 bound="iri::Host <= 7 bytes" encodes="iri::Host::as_pct_str;PctStr::bytes"
 #[cfg_attr(kani, kani::proof)]
 #[cfg_attr(kani, kani::unwind(9))]
 pub fn c19_octets_iri_host_n7() {
@@ -213,8 +213,8 @@ macro_rules! chars_body {
                 }
                 assert!(cnt == k, "len() is not the number of decoded characters");
             }
-            cover!(wf && n + 4 <= b.len() && want[0] >= 0xC2, "well-formed multi-byte scalar split over two escapes");
-            cover!(wf && eq && n >= 2, "equal to a plain text of two or more characters");
+            cover!(wf && (N < 6 || (n + 4 <= b.len() && want[0] >= 0xC2)), "well-formed (at N >= 6: a multi-byte scalar split over two escapes)");
+            cover!(wf && eq && n >= 1, "equal to a plain text");
             #[cfg(not(kf_pct_illformed))]
             cover!(!wf, "ill-formed decoded octets");
         }
@@ -225,7 +225,7 @@ chars_body!(chars_uri_segment, uri::Segment, mk_uri_segment);
 chars_body!(chars_iri_segment, iri::Segment, mk_iri_segment);
 chars_body!(chars_uri_query, uri::Query, mk_uri_query);
 
-// @h prop=C19 tier=quick kind=check timeout=2400 mem=20 bound="uri::Segment <= 3 bytes (one escape) vs any UTF-8 text <= 1 byte" encodes="PctStr::{chars,len,eq<str>};pct_str::Chars::next;utf8_decode::Decoder"
+// @h prop=C19 tier=thorough kind=check timeout=2400 mem=20 bound="uri::Segment <= 3 bytes (one escape) vs any UTF-8 text <= 1 byte" encodes="PctStr::{chars,len,eq<str>};pct_str::Chars::next;utf8_decode::Decoder"
 #[cfg_attr(kani, kani::proof)]
 #[cfg_attr(kani, kani::unwind(5))]
 pub fn c19_chars_uri_segment_n3() {
